@@ -25,6 +25,9 @@ import (
 type c03Case struct {
 	Desc  string `json:"desc"`
 	Block string `json:"block_hex"`
+	// MaxStr != 0: a block of part (D); it is run under c03BoundaryConfigs(MaxStr)
+	// instead of the general configuration list.
+	MaxStr int `json:"maxstr,omitempty"`
 }
 
 // c03Partitions calls f with every partition of b in the family: the two
@@ -101,7 +104,7 @@ func c03EncoderBlocks() []c03Case {
 				// nothing on the wire yet: flush the pending update with one field
 				enc.WriteField(HeaderField{Name: "k", Value: "v"})
 			}
-			out = append(out, c03Case{"enc " + a.name + " " + b.name, c02Hex(buf.Bytes())})
+			out = append(out, c03Case{Desc: "enc " + a.name + " " + b.name, Block: c02Hex(buf.Bytes())})
 		}
 	}
 	return out
@@ -160,6 +163,108 @@ func c03Fragments(wide bool) []c02Frag {
 		fr = append(fr, c02Frag{"lit+idx <reprs>=w", c02Cat([]byte{0x40}, c02EncStr("\x01z\x40\x00\x00", false), c02EncStr("w", false))})
 	}
 	return fr
+}
+
+// c03Str is one encoded string (RFC 7541 §5.2: length prefix + data) of the
+// max-string-length boundary alphabet.
+type c03Str struct {
+	Name string
+	B    []byte
+}
+
+// c03BoundaryStrings returns the encoded strings whose lengths sit on both
+// sides of a max string length n (n >= 4), simplest first:
+//   - not Huffman coded, L octets for L in {1, n-1, n, n+1};
+//   - Huffman coded 'X' (8-bit code) x L for L in {n-1, n, n+1}: encoded and
+//     decoded length are both L;
+//   - Huffman coded 'a' (5-bit code) x L for L in {n-1, n, n+1}: the DECODED
+//     length straddles n while the encoded length is well below it;
+//   - Huffman coded HTAB (24-bit code) x E/3 followed by 'X' x E%3 for E in
+//     {n-1, n, n+1}: the ENCODED length E straddles n while the decoded length
+//     is well below it.
+//
+// The decoder compares the encoded length with its limit when it reads the
+// length prefix and the decoded length while/after Huffman decoding.
+func c03BoundaryStrings(n int) []c03Str {
+	if n < 4 {
+		panic("harness: c03BoundaryStrings needs n >= 4")
+	}
+	var out []c03Str
+	out = append(out, c03Str{"raw*1", c02EncStr("v", false)})
+	for _, l := range []int{n - 1, n, n + 1} {
+		out = append(out, c03Str{fmt.Sprintf("raw*%d", l), c02EncStr(strings.Repeat("v", l), false)})
+	}
+	huff := func(name, s string, wantEnc int) {
+		b := c02EncStr(s, true)
+		hdr := 1
+		if wantEnc >= 127 {
+			hdr = len(c02EncInt(0x80, 7, uint64(wantEnc), 0))
+		}
+		if len(b) != hdr+wantEnc {
+			panic(fmt.Sprintf("harness: Huffman string %s encodes to %d octets, expected %d", name, len(b)-hdr, wantEnc))
+		}
+		out = append(out, c03Str{name, b})
+	}
+	for _, l := range []int{n - 1, n, n + 1} {
+		huff(fmt.Sprintf("huff'X'*%d", l), strings.Repeat("X", l), l)
+	}
+	for _, l := range []int{n - 1, n, n + 1} {
+		huff(fmt.Sprintf("huff'a'*%d", l), strings.Repeat("a", l), (5*l+7)/8)
+	}
+	for _, e := range []int{n - 1, n, n + 1} {
+		huff(fmt.Sprintf("huff(HTAB*%d,'X'*%d)", e/3, e%3), strings.Repeat("\t", e/3)+strings.Repeat("X", e%3), e)
+	}
+	return out
+}
+
+// c03BoundaryBlocks generates part (D) for one max string length n: every
+// literal representation kind (incremental indexing / without indexing / never
+// indexed) with a literal name and a literal value both taken from
+// c03BoundaryStrings(n) (every pair), and with the name taken from static
+// index 1 and every such value; each alone, followed by an indexed field, and
+// preceded by one.
+func c03BoundaryBlocks(n int, yield func(c03Case) bool) bool {
+	strs := c03BoundaryStrings(n)
+	kinds := []struct {
+		name   string
+		hi     byte
+		prefix uint
+	}{{"lit+idx", 0x40, 6}, {"lit", 0x00, 4}, {"never", 0x10, 4}}
+	idx2 := []byte{0x82}
+	emit := func(desc string, rep []byte) bool {
+		desc = fmt.Sprintf("maxstr=%d: %s", n, desc)
+		return yield(c03Case{desc, c02Hex(rep), n}) &&
+			yield(c03Case{desc + ", idx2", c02Hex(c02Cat(rep, idx2)), n}) &&
+			yield(c03Case{"idx2, " + desc, c02Hex(c02Cat(idx2, rep)), n})
+	}
+	for _, k := range kinds {
+		for _, v := range strs {
+			if !emit(fmt.Sprintf("%s n1=%s", k.name, v.Name), c02Cat(c02EncInt(k.hi, k.prefix, 1, 0), v.B)) {
+				return false
+			}
+		}
+		for _, nm := range strs {
+			for _, v := range strs {
+				if !emit(fmt.Sprintf("%s %s=%s", k.name, nm.Name, v.Name), c02Cat([]byte{k.hi}, nm.B, v.B)) {
+					return false
+				}
+			}
+		}
+	}
+	return true
+}
+
+// c03BoundaryConfigs are the decoder configurations of part (D) for blocks
+// whose string lengths straddle n: max string length n under every emit mode
+// and both table sizes, and the same blocks without a max string length.
+func c03BoundaryConfigs(n int) []c03Cfg {
+	return []c03Cfg{
+		{c02Cfg{4096, 0, n}, "on"},
+		{c02Cfg{4096, 2, n}, "off"},
+		{c02Cfg{40, 2, n}, "on"},
+		{c02Cfg{4096, 2, n}, "off-after-1"},
+		{c02Cfg{4096, 0, 0}, "on"},
+	}
 }
 
 // c03ImplRun is c02ImplRun for one block under a c03Cfg, plus what the same
@@ -255,6 +360,7 @@ func TestVerif_C03(t *testing.T) {
 		cfgs := c03Configs(quick)
 		max3 := vx.Pick(c, 12, 20)
 		byteL := vx.Pick(c, 4, 5)
+		maxStrs := vx.Pick(c, []int{8, 16, 64}, []int{7, 8, 16, 64, 127})
 		c.Rule(fmt.Sprintf("blocks: (A) every sequence of 1..3 fragments of the %d-element fragment alphabet (thorough: the %d-element wide alphabet, plus every 4-sequence over the first 12 fragments), each also with its last fragment cut at every byte (truncated blocks); (C) the real Encoder's output for every 2-operation history over 17 operations, each also with every one of its first 24 bytes xor 01 / xor 80 / set to ff and every truncation to < 24 bytes; (B) every byte string of length 1..%d over {00,01,0f,3f,40,7f,80,82,be,ff}. "+
 			"partitions of each block: every 2-partition including an empty chunk, every 3-partition into non-empty chunks for blocks of <= %d bytes, and one byte per Write; under each of %d decoder configurations (initial/allowed table size, 0-2 preloaded entries, max string length set/unset, emitting on / SetEmitEnabled(false) before the block / disabled by the emit callback at the first field of the block; the emit function is replaced with SetEmitFunc after the preload and again before the follow-up). Each partition is compared with the single-Write run of the same configuration: block success/failure, emitted fields, white-box dynamic table (entries, size, maxSize), and - when the block succeeded - the outcome and fields of a follow-up block, fed in one Write with emitting re-enabled, that references every dynamic index the Decoder then has (at most 8); saveBuf empty after Close. The fragment alphabet is that of C02 plus literals whose string content is itself a table-changing representation sequence. non-trivial = block whose single-Write run emitted a field or changed the table or was retained in saveBuf by some partition", len(c03Fragments(false)), len(c03Fragments(true)), byteL, max3, len(cfgs)))
 		c.Assume("after the first error of a block the decoder is not used again (callers must tear the connection down); the success/failure of a block is compared, not which error value is returned")
@@ -267,6 +373,10 @@ func TestVerif_C03(t *testing.T) {
 			nruns := int64(0)
 			defer func() { runs.Add(nruns) }()
 			anyResumed, anyEffect := false, false
+			cfgs := cfgs
+			if x.MaxStr != 0 {
+				cfgs = c03BoundaryConfigs(x.MaxStr)
+			}
 			for _, cfg := range cfgs {
 				base := c03RunImpl(cfg, [][]byte{blk})
 				nruns++
@@ -342,7 +452,7 @@ func TestVerif_C03(t *testing.T) {
 					if cut < len(last.B) {
 						d = fmt.Sprintf("%s (last cut to %d)", desc, cut)
 					}
-					if !yield(c03Case{d, c02Hex(append(head[:len(head):len(head)], last.B[:cut]...))}) {
+					if !yield(c03Case{Desc: d, Block: c02Hex(append(head[:len(head):len(head)], last.B[:cut]...))}) {
 						return false
 					}
 				}
@@ -384,22 +494,30 @@ func TestVerif_C03(t *testing.T) {
 							}
 							d[i] = 0xff
 						}
-						if !yield(c03Case{fmt.Sprintf("%s byte %d %s", cs.Desc, i, m), c02Hex(d)}) {
+						if !yield(c03Case{Desc: fmt.Sprintf("%s byte %d %s", cs.Desc, i, m), Block: c02Hex(d)}) {
 							return
 						}
 					}
 					if i >= 1 {
-						if !yield(c03Case{fmt.Sprintf("%s truncated to %d", cs.Desc, i), c02Hex(b[:i])}) {
+						if !yield(c03Case{Desc: fmt.Sprintf("%s truncated to %d", cs.Desc, i), Block: c02Hex(b[:i])}) {
 							return
 						}
 					}
 				}
 			}
 		}, check)
+		// (D) literals whose name/value lengths straddle the max string length
+		vx.Enumerate(c, "max-string-length-boundary", vx.Opts{}, func(yield func(c03Case) bool) {
+			for _, n := range maxStrs {
+				if !c03BoundaryBlocks(n, yield) {
+					return
+				}
+			}
+		}, check)
 		// (B) byte strings
 		vx.Enumerate(c, "bytes", vx.Opts{}, func(yield func(c03Case) bool) {
 			vx.Strings([]byte{0x00, 0x01, 0x0f, 0x3f, 0x40, 0x7f, 0x80, 0x82, 0xbe, 0xff}, 1, byteL, func(b []byte) bool {
-				return yield(c03Case{"bytes", c02Hex(b)})
+				return yield(c03Case{Desc: "bytes", Block: c02Hex(b)})
 			})
 		}, check)
 
